@@ -745,6 +745,28 @@ func unsliced(v ssa.Value) ssa.Value {
 		}
 		v = sl.X
 	}
+	// a variable that holds a slice or a sub-slice of the same slice (`l := f(); if c { l = l[1:] }`): "some
+	// element" of it is some element of that slice
+	if ph, ok := Strip(v).(*ssa.Phi); ok {
+		var only ssa.Value
+		for _, e := range ph.Edges {
+			if e == ssa.Value(ph) {
+				continue
+			}
+			if _, isPhi := Strip(e).(*ssa.Phi); isPhi {
+				return v
+			}
+			u := unsliced(e)
+			if only == nil {
+				only = u
+			} else if only != u {
+				return v
+			}
+		}
+		if only != nil {
+			return only
+		}
+	}
 	return v
 }
 
